@@ -179,11 +179,13 @@ End Spec.
 
 (* what the model does not describe: Proxy-Uri with a proxy resource (URI splitting is C16's
    subject), a handler that answers 5.08 itself (proxy loop detection of coap_send_internal),
-   and the built-in /.well-known/core answer to a request with a Block2 option (block-wise) *)
+   the built-in /.well-known/core answer to a request with a Block2 option and an Observe
+   registration with a Block2 / Q-Block2 option (block-wise) *)
 Definition dp_in_scope (cfg : dp_cfg) (h : dp_hreq -> dp_hresp) (req : msg) : Prop :=
   (sp_has_proxy cfg = true -> dp_has DP_PROXY_URI (m_opts req) = false) /\
   (forall i, hr_code (h i) <> 168) /\
-  (dp_has DP_BLOCK2 (m_opts req) = true -> sp_target cfg req <> TWellKnown).
+  (dp_has DP_BLOCK2 (m_opts req) = true -> sp_target cfg req <> TWellKnown) /\
+  dp_observe (sp_target cfg req) (sp_req' cfg req) <> ObsBlocked.
 
 Definition dp_txs (out : list dp_ev) : list msg :=
   flat_map (fun e => match e with EvTx _ m => [m] | _ => [] end) out.
